@@ -255,15 +255,15 @@ CASES = {"basis": case_basis, "history": case_history, "sequence": case_sequence
 def run(r) -> None:
     quick = r.tier == "quick"
     r.bind_model(only=[f"gen_{k}_pyst_kernel_{d}d" for k in ("set_fixed_val", "elementwise_copy", "elementwise_complex_product") for d in (2, 3)])
-    s2 = range(2, 6) if quick else range(2, 8)
-    s3 = range(2, 4) if quick else range(2, 6)
+    s2 = range(2, 6) if quick else range(2, 10)
+    s3 = range(2, 4) if quick else range(2, 7)
     shapes2 = list(itertools.product(s2, s2))
     shapes3 = list(itertools.product(s3, s3, s3))
     if quick:
         shapes2 += [(7, 6), (6, 7)]
         shapes3 += [(4, 3, 5), (5, 4, 2)]
-    # sizes with prime factors 7, 11, 13 (and 14 = 2 * 7, 9 = 3^2, 8 = 2^3) on every axis position
-    for n in (7, 11, 13, 14, 9, 8):
+    # sizes with prime factors 7 .. 31 (7, 11, 13, 14, 17, 19, 23, 29, 31) and 8, 9, 16 on every axis position (FFT lengths that padding heuristics treat differently)
+    for n in (7, 11, 13, 14, 9, 8, 16, 17, 19, 23, 29, 31):
         shapes2 += [(n, 2), (3, n)]
         shapes3 += [(n, 2, 3), (2, n, 2), (3, 2, n)]
     shapes2 = list(dict.fromkeys(shapes2))
@@ -280,7 +280,7 @@ def run(r) -> None:
                 basis.append(dict(dim=3, shape=shape, x_range=xr, dtype=dt))
     basis.sort(key=lambda p: -int(np.prod(p["shape"])) ** 2)
     r.run_cases("basis", "basis", basis)
-    depth = 3 if quick else 4
+    depth = 3 if quick else 5
     hist = []
     for dim, shape in ((2, (3, 4)), (2, (4, 3)), (3, (2, 3, 4)), (3, (3, 2, 2))):
         for dt in dts:
